@@ -125,6 +125,21 @@ def inject_explainer_state(env, ex, names, labels, sage=True, efficiency_inv=Tru
 
 # ---- explainer construction ---------------------------------------------------------------------
 
+class RiverLoss:
+    """adapter giving the real river-metric loss the small oracle interface of UFLoss (calls log, value())"""
+
+    def __init__(self, wrapped):
+        self.wrapped = wrapped
+        self.calls = []
+
+    def __call__(self, y_true, y_pred, /):
+        self.calls.append((y_true, dict(y_pred)))
+        return self.wrapped(y_true, y_pred)
+
+    def value(self, y_true, y_pred):
+        return self.wrapped(y_true, dict(y_pred))
+
+
 class LoggingImputer:
     """wraps a real imputer and records (subset as given, returned predictions); optional fault tick"""
 
@@ -156,7 +171,13 @@ def build_incremental(env, cls, cfg, faults=None, ctor_kwargs=None):
     labels = LABELSETS[cfg.get('labels', 1)]
     model = UFModel(env, names, labels=labels, faults=faults, reads=cfg.get('_reads'),
                     varying_labels=cfg.get('varlabels', False))
-    loss = UFLoss(env, faults=faults, flavor=cfg.get('loss_type', 'py'))
+    if cfg.get('loss', '').startswith('river:'):
+        # a real, stateful river metric turned into a loss by the library's own validator (its purity is C13's subject)
+        import river.metrics as _rm
+        from ixai.utils.validators.loss import validate_loss_function as _vlf
+        loss = RiverLoss(_vlf(getattr(_rm, cfg['loss'].split(':')[1])()))
+    else:
+        loss = UFLoss(env, faults=faults, flavor=cfg.get('loss_type', 'py'))
     dynamic = cfg.get('mode', 'static') == 'dynamic'
     alpha = None
     if dynamic:
